@@ -64,3 +64,7 @@ let run pinned =
       let f = if pinned then access_pinned else access_now in
       print_endline (show (f (acc_of_string a) av))
     | _ -> print_endline "badcase")
+
+let () =
+  Registry.register "value" (fun _ -> run false);
+  Registry.register "value-pinned" (fun _ -> run true)
